@@ -844,6 +844,11 @@ fn record_big(out: &mut Out, r: &mut Rng, caps: &Caps, thorough: bool) {
                 }
             }
             if n >= (1 << 34) {
+                // announced sizes of 2^34 and more are refused although the bytes are there
+                let p = prefix_of_width(n, 6);
+                if let Some(e) = ev_big(&p, n, 0, caps) {
+                    out.emit(&e);
+                }
                 continue;
             }
             // decode side: every prefix width that can carry n, exact and one byte short
@@ -1119,12 +1124,20 @@ fn main() {
                         }
                     }
                 }
+                let last = arg(&args, "--last");
+                let note = |v: &Value| {
+                    // the input about to be run, so that an abort of the process can be attributed
+                    if let Some(p) = &last {
+                        let _ = std::fs::write(p, v.to_string());
+                    }
+                };
                 for _ in 0..n {
                     match mix.as_str() {
                         "C15" => {
                             if r.chance(3, 5) {
                                 let t = gen_tree(&mut r, thorough);
                                 let share = r.chance(1, 2);
+                                note(&json!({"t": norm_tree(t.clone()), "share": share}));
                                 let s = ev_ser(&t, share);
                                 let outb = if s["r"] == "ok" { Some(json_bytes(&s["out"])) } else { None };
                                 out.emit(&s);
@@ -1138,6 +1151,7 @@ fn main() {
                                 }
                             } else {
                                 let b = gen_bytes(&mut r);
+                                note(&json!({"b": bytes_json(&b)}));
                                 bytes_events(&mut out, &b, "C15", &mut r);
                             }
                         }
@@ -1148,6 +1162,7 @@ fn main() {
                             } else {
                                 gen_bytes(&mut r)
                             };
+                            note(&json!({"b": bytes_json(&b)}));
                             bytes_events(&mut out, &b, "C16", &mut r);
                         }
                         _ => {
@@ -1159,6 +1174,7 @@ fn main() {
                                 }
                             };
                             let share = r.chance(1, 2);
+                            note(&json!({"t": norm_tree(t.clone()), "share": share}));
                             out.emit(&ev_limit(&t, "classic", share));
                             out.emit(&ev_limit(&t, "backrefs", share));
                         }
